@@ -241,14 +241,13 @@ func (b *Batcher) commitBatch(batch *Batch) BatchStatus {
 
 	now := time.Now()
 	// let's restore the sequence of batches to make sure input will commit offsets incrementally
-	verifGate("batch.commit", uint64(len(b.opts.OutputType)), uint64(batchSeq))
+	verifGate("b.commit", uint64(batchSeq), verifBatcherID(b))
 	b.seqMu.Lock()
 	for b.commitSeq != batchSeq {
 		b.cond.Wait()
 	}
 	verifTrace("b.commit", uint64(batchSeq), verifBatcherID(b))
 	b.commitSeq++
-	verifTrace("batch.commit", uint64(len(b.opts.OutputType)), uint64(batchSeq))
 	b.commitWaitingSeconds.Observe(time.Since(now).Seconds())
 
 	for i := range batch.events {
@@ -273,7 +272,7 @@ func (b *Batcher) heartbeat() {
 		}
 
 		batch := b.getBatch()
-		verifTrace("batch.hb", uint64(len(b.opts.OutputType)), 0)
+		verifTrace("b.hb", 0, verifBatcherID(b))
 		b.trySendBatchAndUnlock(batch)
 
 		time.Sleep(time.Millisecond * 100)
@@ -290,7 +289,6 @@ func (b *Batcher) Add(event *Event) {
 
 	batch := b.getBatch()
 	batch.append(event)
-	verifTrace("batch.add", uint64(len(b.opts.OutputType)), event.SeqID)
 	verifTrace("b.add", uint64(event.Offset), verifBatcherID(b))
 
 	b.trySendBatchAndUnlock(batch)
@@ -307,9 +305,8 @@ func (b *Batcher) trySendBatchAndUnlock(batch *Batch) {
 	verifTrace("b.seal", uint64(batch.seq), verifBatcherID(b))
 	b.outSeq++
 	b.batch = nil
-	verifTrace("batch.seal", uint64(len(b.opts.OutputType)), uint64(batch.seq)<<2|uint64(batch.status))
 	b.mu.Unlock()
-	verifGate("batch.enqueue", uint64(len(b.opts.OutputType)), uint64(batch.seq)<<2|uint64(batch.status))
+	verifGate("b.enqueue", uint64(batch.seq)<<2|uint64(batch.status), verifBatcherID(b))
 
 	b.fullBatches <- batch
 }
@@ -327,7 +324,7 @@ func (b *Batcher) Stop() {
 	if !b.shouldStop {
 		b.shouldStop = true
 		close(b.fullBatches)
-		verifTrace("batch.stop", uint64(len(b.opts.OutputType)), 0)
+		verifTrace("b.stop", 0, verifBatcherID(b))
 	}
 	b.mu.Unlock()
 
